@@ -198,3 +198,52 @@ func VerifC06LockWait(h *verifh.H) {
 	h.Assert(vJoin(at.rels) == vJoin(sn.rels), "relationship query as of an instant at which a writer was waiting for the lock equals the answer given then :: then="+vJoin(sn.rels)+" now="+vJoin(at.rels))
 	h.Observe("asTxn", asTxn)
 }
+
+// VerifC06PagedPinned: a relationship query with several results is read page
+// by page (limit 1 or 2); between the first page and the continuation the
+// start entity, a related entity or a referrer is written again or deleted
+// (batches or a transaction, either dataset). The pages together are the
+// result set as of the instant the first page pinned — for outgoing queries
+// from an entity with three relations under two predicates (one of them live
+// in two datasets) and incoming queries to an entity with two referrers.
+func VerifC06PagedPinned(h *verifh.H) {
+	hs := vNewHistory(h, "d1", "d2")
+	e1 := &mVersion{ID: "ns0:e1", Props: map[string]string{"ns0:v": "x"}, Refs: map[string][]string{"ns0:p1": {"ns0:e2", "ns0:e3"}, "ns0:p2": {"ns0:e3"}}}
+	e2 := &mVersion{ID: "ns0:e2", Props: map[string]string{}, Refs: map[string][]string{"ns0:p1": {"ns0:e3"}}}
+	e1b := &mVersion{ID: "ns0:e1", Props: map[string]string{}, Refs: map[string][]string{"ns0:p1": {"ns0:e3"}}}
+	h.Assert(hs.dss["d1"].StoreEntities([]*Entity{mkEntity(e1), mkEntity(e2)}) == nil, "first write")
+	hs.g.write("d1", []*mVersion{e1, e2})
+	h.Assert(hs.dss["d2"].StoreEntities([]*Entity{mkEntity(e1b)}) == nil, "second write")
+	hs.g.write("d2", []*mVersion{e1b})
+
+	st := hs.hub.Store
+	start, inverse := "ns0:e1", false
+	if h.Choice("incoming", 2) == 1 {
+		start, inverse = "ns0:e3", true
+	}
+	pred := []string{"*", "ns0:p1"}[h.Choice("pred", 2)]
+	limit := 1 + h.Choice("limit", 2)
+	tq := time.Now().UnixNano()
+	from, err := st.ToRelatedFrom([]string{start}, pred, inverse, nil, tq)
+	h.Assert(err == nil && len(from) > 0 && from[0] != nil, "query start resolves")
+	full, err := st.GetManyRelatedEntitiesAtTime(from, 0, true)
+	h.Assert(err == nil, "unpaged query")
+	fullBefore := vRelPairs(full.Relations)
+	from2, _ := st.ToRelatedFrom([]string{start}, pred, inverse, nil, tq)
+	p1, err := st.GetManyRelatedEntitiesAtTime(from2, limit, true)
+	h.Assert(err == nil, "first page")
+	all := append([]RelatedEntityResult{}, p1.Relations...)
+	cont := p1.Cont
+	// later writes
+	for s := 0; s < h.Param("suffix", 1); s++ {
+		hs.step(h, 2+s, famRefs, false, true)
+	}
+	for page := 0; len(cont) > 0 && page < 8; page++ {
+		next, err := st.GetManyRelatedEntitiesAtTime(cont, limit, true)
+		h.Assert(err == nil, "continuation accepted after later writes")
+		all = append(all, next.Relations...)
+		cont = next.Cont
+	}
+	h.Assert(vJoin(vSorted(vRelPairs(all))) == vJoin(vSorted(fullBefore)), "a paged query continued after later writes returns the result set as of its pinned instant :: start="+start+" pred="+pred+" paged="+vJoin(vRelPairs(all))+" asof="+vJoin(fullBefore))
+	h.Observe("n", len(all))
+}
